@@ -3,4 +3,7 @@ from . import orders
 
 
 def run(ctx):
-    return orders.run_orders(ctx, "C04")
+    res = orders.run_orders(ctx, "C04")
+    from . import c09
+    c09.side_branch_probe(ctx, res, ["ts_equal_parent", "reward_plus1"], "C04")
+    return res
